@@ -4,6 +4,7 @@ package props
 
 import (
 	"fmt"
+	"regexp"
 	"strings"
 	"testing"
 	"unicode/utf16"
@@ -265,8 +266,8 @@ func refRemovetags(in string, tags []string) string {
 				if j < len(s) && s[j] == '/' {
 					j++
 				}
-				if j < len(s) && s[j:j+1] == tg {
-					j++
+				if tg != "" && strings.HasPrefix(s[j:], tg) {
+					j += len(tg)
 					if j < len(s) && s[j] == '/' {
 						j++
 					}
@@ -302,6 +303,8 @@ func validTagParam(p string) ([]string, bool) {
 	}
 	return tags, true
 }
+
+var c17TagName = regexp.MustCompile(`^[A-Za-z][A-Za-z0-9]*$`)
 
 var c17Set = pongo2.NewSet("c17", &memLoader{})
 
@@ -405,8 +408,15 @@ func checkC17(c any, r *Rec) error {
 						lenient = append(lenient, tg)
 					}
 				}
-				if want := refRemovetags(in, lenient); !removetagsOK(v.String(), want) {
-					return fmt.Errorf("removetags:%q (not a clean tag list) on %q = %q; only the named tags %v may be removed: %q", cs.Param, in, v.String(), lenient, want)
+				// ... where a name may also be longer than one letter (strong, h1): tags of that name go then
+				var longer []string
+				for _, tg := range strings.Split(cs.Param, ",") {
+					if tg = strings.TrimSpace(tg); c17TagName.MatchString(tg) {
+						longer = append(longer, tg)
+					}
+				}
+				if want, want2 := refRemovetags(in, lenient), refRemovetags(in, longer); !removetagsOK(v.String(), want) && !removetagsOK(v.String(), want2) {
+					return fmt.Errorf("removetags:%q (not a clean tag list) on %q = %q; only the named tags %v may be removed: %q (or %q)", cs.Param, in, v.String(), longer, want, want2)
 				}
 				r.Class("removetags:odd-param-read-leniently")
 				return nil
